@@ -24,6 +24,33 @@ theorem accepts_known (L : List Name) (kw : List (Name × α)) (d : α) (h : ∀
 theorem shape (L : List Name) (data : List α) : (∃ v, fromData L data = .ok v) ↔ data.length = L.length :=
   fromData_shape L data
 
+/-- **Shapes, not counts.** An array is accepted exactly when its SHAPE is the type's shape `(n, 1)`; in particular an array
+with the right number of values laid out otherwise — flat `(n)`, a row `(1, n)`, `(n, 1, 1)`, a `(2, 2)` block for four names —
+is refused, never re-laid-out. -/
+theorem shape_nd (L : List Name) (shape : List Nat) (flat : List α) :
+    (∃ v, fromDataND L shape flat = .ok v) ↔ shape = [L.length, 1] := by
+  unfold fromDataND; split <;> simp_all
+
+theorem same_count_other_shape_refused (L : List Name) (shape : List Nat) (flat : List α)
+    (_hcount : shape.foldl (· * ·) 1 = L.length) (hshape : shape ≠ [L.length, 1]) :
+    fromDataND L shape flat = .error (.badShape L.length shape.length) := by
+  unfold fromDataND; simp [hshape]
+
+/-- accepted data is stored as given: slot `i` (row-major) is the value of the type's `i`-th name -/
+theorem shape_nd_stores (L : List Name) (shape : List Nat) (flat v : List α) (h : fromDataND L shape flat = .ok v) : v = flat := by
+  unfold fromDataND at h; split at h <;> simp_all
+
+theorem cov_shape_nd (L : List Name) (shape : List Nat) (flat : List α) :
+    (∃ v, fromCovND L shape flat = .ok v) ↔ shape = [L.length, L.length] := by
+  unfold fromCovND; split <;> simp_all
+
+/-! non-vacuity: right counts in wrong shapes -/
+example : (fromDataND ["a", "b", "c", "d"] [2, 2] [1, 2, 3, 4] : Except BindErr (List Nat)) = .error (.badShape 4 2) ∧
+    (fromDataND ["a", "b"] [1, 2] [1, 2] : Except BindErr (List Nat)) = .error (.badShape 2 2) ∧
+    (fromDataND ["a", "b"] [2] [1, 2] : Except BindErr (List Nat)) = .error (.badShape 2 1) ∧
+    (fromDataND ["a", "b"] [2, 1] [1, 2] : Except BindErr (List Nat)) = .ok [1, 2] ∧
+    (fromCovND ["a", "b"] [4, 1] [1, 2, 3, 4] : Except BindErr (List Nat)) = .error (.badShape 2 2) := by decide
+
 /-- covariances: named variances on the diagonal, unit variance by default, zero off the diagonal -/
 theorem covariance_by_name (zero one : α) (L : List Name) (kw : List (Name × α)) (m : List (List α))
     (hb : bindCov zero one L kw = .ok m) {r c : Name} (hr : r ∈ L) (hc : c ∈ L) :
